@@ -10,6 +10,7 @@ import Rbql.Proofs.Characterisations
 import Rbql.Proofs.RecordsSpec
 import Rbql.Spec.Comparable
 import Rbql.Theorems.C07
+import Rbql.Theorems.C18
 namespace Rbql
 open LitOp
 
@@ -272,6 +273,32 @@ theorem C12_rfc_records_are_the_assembled_lines (c : RCfg) (hpol : c.policy = .q
 theorem C12_bom_seen_iff (c : RCfg) (text : Str) :
     bomSeen c text = true ↔ c.enc ≠ .none ∧ ∃ rest ls, linesSpec text = (bomOf c.enc ++ rest) :: ls :=
   bomSeen_iff c text
+
+/-- the rbql-js reader returns the same thing (compared as the correspondence compares results: warnings as a set), for every
+chunking of the decoded text that satisfies `GoodPieces`: what the JS port reads is ALSO the split physical lines -/
+theorem C20_js_records_are_the_split_lines (c : RCfg) (hpol : c.policy ≠ .quotedRfc) (hc : 1 ≤ c.chunk) (hok : CommentOK c)
+    (hasHeader : Bool) (modifier : Option Bool) (jsPieces : List Str) (hj : GoodPieces jsPieces) :
+    canonResult (jsResult (jsStream c jsPieces) hasHeader modifier) =
+      canonResult (.ok
+        { header := if effHeader hasHeader modifier then ((recordsSpec c jsPieces.flatten).map (·.1)).head? else none,
+          records := if effHeader hasHeader modifier then ((recordsSpec c jsPieces.flatten).map (·.1)).tail
+            else (recordsSpec c jsPieces.flatten).map (·.1),
+          warnings := warningsSpec (bomSeen c jsPieces.flatten) (firstDefectiveSpec c jsPieces.flatten)
+            ((recordsSpec c jsPieces.flatten).map (·.1)) }) := by
+  let py : List Str := if jsPieces.flatten = [] then [] else [jsPieces.flatten]
+  have hp : ∀ p ∈ py, p ≠ [] := by
+    intro p hp'
+    simp only [py] at hp'
+    split at hp'
+    · cases hp'
+    · simp at hp'; subst hp'; assumption
+  have hflat : py.flatten = jsPieces.flatten := by
+    simp only [py]
+    by_cases h : jsPieces.flatten = []
+    · rw [if_pos h, h]; rfl
+    · rw [if_neg h]; simp
+  rw [← C18_readers_agree_any_chunking c hc hok hasHeader modifier py jsPieces hp hj hflat,
+    readAll_eq_recordsSpec c hpol hc hasHeader modifier py hp, hflat]
 
 /-! ## C13 — the CSV front-end is a faithful adapter, through the real reader machine -/
 
